@@ -12,4 +12,5 @@ open Fzf.Props.C02
 #print axioms C02_normalize_ascii
 #print axioms C02_prefilter_sound
 #print axioms C02_v1_sound_complete
+#print axioms C02_indexAt_is_source
 #print axioms C02_v1_forward_total
